@@ -21,7 +21,8 @@ RULE = ("('exhaustive' in the thorough evidence refers to the enumerated sub-dom
         "random sequence at two conditions evaluated as given, upper-cased and lower-cased, the two conditions either "
         "independent random draws or (close pt) coordinate-wise ordered with 1 ulp..5% steps on a random subset of the axes "
         "in random order; mt cases = MeltingTemp / SantaLucia(defaults) / MarmurDoty on every sequence of length 1..Lm "
-        "(quick 5, thorough 6), on random sequences and on one shuffled sequence per base composition (G+C count, length) "
+        "(quick 5, thorough 6), on random sequences, on sequences of the fixed lengths 31,32,33,63,64,65,66,100,127,128,129,130,192,"
+        "193,200,256,257,500 (uniform / self-complementary / one mismatch from it; each as pt, 2x2x2 grid and mt case) and on one shuffled sequence per base composition (G+C count, length) "
         "for lengths 9..200 (thorough all 20k, quick a 1-in-8 sample). Random sequences: 25% exactly self-complementary, 15% one "
         "substitution (or one inserted middle base) away from self-complementary with the mismatch in the middle, at an "
         "end or anywhere, the rest uniform; letter case random / mirror-symmetric / all upper / all lower. Conditions: "
@@ -243,6 +244,23 @@ def cases(seed, tier):
         yield ["mt", w]
         yield ["grid", w, full[2], full[3], full[4]]
         yield ["pt", w, bits(500e-9), bits(50e-3), bits(0.0), bits(1e-6), bits(0.1), bits(2e-3)]
+    # --- fixed lengths around block sizes a buffered implementation might use, the documented maximum and beyond
+    for L in [31, 32, 33, 63, 64, 65, 66, 100, 127, 128, 129, 130, 192, 193, 200, 256, 257, 500]:
+        for rep in range(3 if quick else 20):
+            if rep % 3 == 1 and L % 2 == 0:
+                h = randword(r, ACGT, L // 2)
+                w = h + rc(h)
+            elif rep % 3 == 2:
+                w = near_selfcomp(r, L)[:L].ljust(L, "A")
+            else:
+                w = randword(r, ACGT, L)
+            w = anycase(r, w)
+            c, na, mg = rand_cond(r)
+            c2, na2, mg2 = rand_cond(r)
+            cl, nal, mgl = subgrid(idx); idx += 1
+            yield ["pt", w, bits(c), bits(na), bits(mg), bits(c2), bits(na2), bits(mg2)]
+            yield ["grid", w, blist(cl), blist(nal), blist(mgl)]
+            yield ["mt", w]
     # --- random
     n = 1000 if quick else 20000
     for _ in range(n):
